@@ -47,6 +47,7 @@ import base64
 import binascii
 import re
 from datetime import date, datetime, time, timedelta
+from decimal import Decimal
 from enum import Enum
 from typing import Union
 
@@ -67,6 +68,17 @@ DURATION_REGEX = re.compile(r'([-+]?)P(?:(\d+)W)?(?:(\d+)D)?'
 
 WEEKDAY_RULE = re.compile(r'(?P<signal>[+-]?)(?P<relative>[\d]{0,2})'
                           r'(?P<weekday>[\w]{2})$')
+
+
+def float_to_ical(value: float) -> str:
+    """Render a float in the FLOAT grammar of RFC 5545: digits with an optional
+    fraction, never exponent notation (``1e-05``), which str() uses for very
+    small and very large values.
+    """
+    text = repr(float(value))
+    if 'e' in text or 'E' in text:
+        text = format(Decimal(text), 'f')
+    return text
 
 
 class vBinary:
@@ -308,7 +320,7 @@ class vFloat(float):
         return self
 
     def to_ical(self):
-        return str(self).encode('utf-8')
+        return float_to_ical(self).encode('utf-8')
 
     @classmethod
     def from_ical(cls, ical):
@@ -1574,7 +1586,7 @@ class vGeo:
         self.params = Parameters(params)
 
     def to_ical(self):
-        return f"{self.latitude};{self.longitude}"
+        return f"{float_to_ical(self.latitude)};{float_to_ical(self.longitude)}"
 
     @staticmethod
     def from_ical(ical):
